@@ -49,9 +49,12 @@ def confirm(name, wt, prop):
     pkgs = sorted({"./" + os.path.dirname(d) for d in demos})
     run_demo = "timeout 900 go test -vet=off -count=1 -run 'TestMutantDemo' " + " ".join(pkgs)
     allok &= step("demonstration fails with the change", run_demo, False)
-    sh("git stash push -- " + " ".join(changed), cwd=wt)
+    # (git stash is shared by all worktrees of a repository: undo and redo the change with the patch itself)
+    pf = os.path.join(out, "patch.diff")
+    open(pf, "w").write(diff)
+    sh(["git", "apply", "-R", pf], cwd=wt)
     allok &= step("demonstration passes without the change", run_demo, True)
-    sh("git stash pop", cwd=wt)
+    sh(["git", "apply", pf], cwd=wt)
     open(os.path.join(out, "patch.diff"), "w").write(diff)
     for d in demos:
         shutil.copyfile(os.path.join(wt, d), os.path.join(out, os.path.basename(d)))
